@@ -8,12 +8,18 @@
 package verifnd
 
 import (
+	"crypto/hmac"
+	"crypto/sha256"
 	"encoding/hex"
 	"encoding/json"
 	"fmt"
+	"io"
+	"net"
 	"os"
 	"runtime"
 	"sync"
+
+	"golang.org/x/crypto/hkdf"
 )
 
 type ndValue struct {
@@ -217,3 +223,43 @@ func BytesEq(a, b []byte) bool {
 // MaxSymAlloc sets the largest symbolic allocation size the engine explores
 // (a recorded cut; default 64).
 func MaxSymAlloc(n int) {}
+
+// HKDF returns n bytes at offset off of the HKDF-SHA256(secret, salt, info)
+// output stream (in the engine: the same uninterpreted function the model of
+// golang.org/x/crypto/hkdf uses).
+func HKDF(secret, salt, info []byte, off, n int) []byte {
+	r := hkdf.New(sha256.New, secret, salt, info)
+	buf := make([]byte, off+n)
+	if _, err := io.ReadFull(r, buf); err != nil {
+		panic(err)
+	}
+	return buf[off:]
+}
+
+// HMACSHA256 is HMAC-SHA256(key, msg).
+func HMACSHA256(key, msg []byte) []byte {
+	h := hmac.New(sha256.New, key)
+	h.Write(msg)
+	return h.Sum(nil)
+}
+
+// CIDR prints an address/prefix-length pair the way an operator would write it.
+func CIDR(ip []byte, ones int) string { return fmt.Sprintf("%s/%d", net.IP(ip).String(), ones) }
+
+// IPString prints an address.
+func IPString(ip []byte) string { return net.IP(ip).String() }
+
+// LoopBound cuts paths on which any block of the named function is entered more
+// than n times in one activation (a recorded cut, e.g. rejection-sampling rounds).
+func LoopBound(fn string, n int) {}
+
+// Sequential switches the engine's scheduler to run-to-block mode: the running
+// thread is never pre-empted and the next thread is picked deterministically.
+// For harnesses whose subject is not concurrency (background goroutines such
+// as statistics tickers then never interleave).
+func Sequential() {}
+
+// Prefer is a soft constraint on the counterexample the solver reports (it
+// never changes a verdict): models satisfying it are tried first, e.g. to pick
+// a counterexample that does not depend on the value of a hash output.
+func Prefer(cond bool) {}
